@@ -526,6 +526,11 @@ class FmtGen:
                     k += 1
             d = r.below(self.max_depth + 1)
             st = self.statement(d)
+            if st.startswith("-"):
+                # a line starting with "-" continues the previous statement (the line break and any
+                # comment before it sit inside a binary expression: class swallow_infix, not a statement
+                # boundary); keep statement boundaries unambiguous
+                st = "(" + st + ")"
             out += (self.ind() if r.chance(1, 5) else "") + st
             if self.want() and r.chance(1, 2):
                 out += self.sp() + self.comment("stmt_eol", Ctx())
